@@ -903,6 +903,20 @@ fn main() {
     let sample_every = a.num("--sample-every", 50);
     let (mut replayed, mut fast, mut slow, mut drift, mut skipped, mut nontrivial) = (0u64, 0u64, 0u64, 0u64, 0u64, 0u64);
     let (mut shaped, mut shape_drift) = (0u64, 0u64);
+    // a tree that deviates everywhere makes every scenario drift; the verdict only needs some of them: per family (mode / encoder /
+    // entry point) the first --drift-cap drifting cases are recorded for TLC, after that every 50th up to another --drift-cap
+    let drift_cap = a.num("--drift-cap", 150);
+    let mut drift_seen = std::collections::BTreeMap::<String, u64>::new();
+    let mut drift_unrecorded = 0u64;
+    let mut record_drift = |fam: String| -> bool {
+        let n = drift_seen.entry(fam).or_insert(0);
+        *n += 1;
+        let rec = *n <= drift_cap || (*n % 50 == 0 && *n / 50 <= drift_cap);
+        if !rec {
+            drift_unrecorded += 1;
+        }
+        rec
+    };
     let mut hits = std::collections::BTreeMap::<String, u64>::new();
     let mut hit = |k: String| *hits.entry(k).or_insert(0) += 1;
     if let Some(f) = a.get("--scenarios") {
@@ -971,7 +985,7 @@ fn main() {
                     drift += 1;
                     shape_drift += 1;
                 }
-                if !same || shaped % sample_every == 0 {
+                if (!same && record_drift(format!("shape_{}_{}", via, if r.is_ok() { "acc" } else { "ref" }))) || shaped % sample_every == 0 {
                     emit_shaped(&mut t, case, "tlc", via, &tops, &r);
                     case += 1;
                     slow += 1;
@@ -1029,7 +1043,7 @@ fn main() {
                 if matches!(&r, Ok(o) if !o.out.is_empty()) {
                     nontrivial += 1;
                 }
-                if !same || mode == "full" || replayed % sample_every == 0 {
+                if (!same && mode != "full" && record_drift(format!("{}_{}_{}", mode, enc, be))) || mode == "full" || replayed % sample_every == 0 {
                     emit(&mut t, case, "tlc", enc, be, &mode, 0, &vals, &r);
                     case += 1;
                     slow += 1;
@@ -1238,7 +1252,7 @@ fn main() {
         case += 1;
     }
     t.flush();
-    println!("{}", json!({"cases": case, "shaped_replayed": shaped, "shape_drift": shape_drift, "random_shapes": n_rshapes, "lines": t.lines, "replayed": replayed, "fast_path": fast, "slow_path": slow + n_random + directed + n_rshapes,
+    println!("{}", json!({"cases": case, "shaped_replayed": shaped, "shape_drift": shape_drift, "drift_unrecorded": drift_unrecorded, "random_shapes": n_rshapes, "lines": t.lines, "replayed": replayed, "fast_path": fast, "slow_path": slow + n_random + directed + n_rshapes,
                           "directed": directed,
                           "drift": drift, "skipped_not_encodable": skipped, "nontrivial_replayed": nontrivial, "hits": hits}));
 }
